@@ -76,7 +76,7 @@ def node_step(k: int, n: int, nch: int, r0: bool, r1: bool, r2: bool, r3: bool, 
 # API templates: concrete texts through the real SqParser.eval, symbolic budget / host data
 from sqv.api import PARSER, CACHED, count_nodes, run_eval, Probe, prewarm  # noqa
 if isinstance(hlib.PARAM, dict):
-    prewarm(hlib.PARAM.get("text"), hlib.PARAM.get("define"), hlib.PARAM.get("use"), "v => v + a", "a + b")
+    prewarm(hlib.PARAM.get("text"), hlib.PARAM.get("define"), hlib.PARAM.get("use"), "v => v + a", "a + b", "one + one")
 
 
 def api_forward(n: int, a: int, b: int, c: bool) -> None:
@@ -241,4 +241,39 @@ def api_ast_names(n: int, a: int, b: int, l: List[int]) -> None:
         assert started == n, "ops-limit error raised at an operation other than the N-th (ast_names)"
     else:
         assert started < n, "run with ast_names returned (or failed otherwise) after starting N or more operations"
+    hlib.done()
+
+
+REENTRANT = ["x = re(one)\ny = t(1, a)\nz = t(2, b)", "l | map(v => re(v)) | len", "re(re(one)) + t(1, a)"]
+
+
+def api_reentrant(n: int, a: int, b: int, l: List[int], inner_budget: int) -> None:
+    """
+    pre: n >= 1 and len(l) <= 2 and inner_budget >= 1
+    post: True
+    """
+    # a host callback that itself calls eval() on the SAME parser with the SAME names mapping: each call has its own budget
+    hlib.enter(locals())
+    text = hlib.PARAM["text"]
+    names = {'a': a, 'b': b, 'l': list(l), 'one': 1, 't': Probe()}
+    inner_nodes = [0]
+
+    def re(v):
+        before = api_count()
+        try:
+            return CACHED.eval("one + one", names, max_ops_evaluated=inner_budget)
+        finally:
+            inner_nodes[0] += api_count() - before
+    names['re'] = re
+    api_reset()
+    try:
+        CACHED.eval(text, names, max_ops_evaluated=n)
+        out = None
+    except Exception as e:
+        out = e
+    own = api_count() - inner_nodes[0]          # node evaluations of the OUTER call only
+    if isinstance(out, OpsLimit) and inner_budget > 4:
+        assert own == n, "outer eval: ops-limit raised at an operation other than its own N-th (re-entrant eval from a host callback)"
+    elif out is None:
+        assert own < n, "outer eval returned although it started N or more operations of its own (re-entrant eval from a host callback)"
     hlib.done()
